@@ -18,9 +18,14 @@ def use_provider(name):
         icalendar.use_zoneinfo()
 
 
+CUSTOM_ZONES = {}        # TZID -> tzinfo built from a VTIMEZONE component by the API builder (gen.model.build)
+
+
 def tzinfo_for(tz):
     if tz is None:
         return None
+    if tz.startswith("custom:"):
+        return CUSTOM_ZONES[tz.split(":", 1)[1]]
     if tz == "UTC":
         from icalendar.timezone import tzp
         return tzp.localize_utc(datetime(2000, 1, 1)).tzinfo
